@@ -14,6 +14,7 @@ bootstrap.ensure()
 
 ID = "C10"
 LEVEL = "exploration"
+TECHNIQUE = "runtime monitoring: icontract contract on attach_payload, shadow payload map, leaf iteration counters and hook log over histories"
 RULE = (
     "seeded random histories (20-45 steps quick / 45-120 thorough) over a pool of trees that all share one or two "
     "'core' materialization nodes whose upstream pipeline reads a CountingRows leaf used nowhere else (iteration "
